@@ -2484,6 +2484,36 @@ impl RecordBatchStream for PerPartitionStream {
     }
 }
 
+/// Verification hooks (add-only; compiled only with `--cfg datafusion_verif`).
+#[cfg(datafusion_verif)]
+pub mod verif {
+    pub use super::distributor_channels::{
+        DistributionReceiver, DistributionSender, channels, partition_aware_channels,
+    };
+    use super::StrengthReducedU64;
+
+    /// Bucket that `StrengthReducedU64::new(n).partition_indices` appends a row with hash
+    /// `hash` to (drives the production loop on a one-element hash buffer).
+    pub fn partition_index(hash: u64, n: u64) -> usize {
+        let reducer = StrengthReducedU64::new(n);
+        // only `n` buckets can be addressed; cap the allocation for huge `n`
+        let len = usize::try_from(n).unwrap_or(usize::MAX).min(1 << 12);
+        let mut indices: Vec<Vec<u32>> = vec![vec![]; len];
+        // for n > 2^16 the caller must pick hashes whose remainder is < 2^12
+        reducer.partition_indices(&[hash], &mut indices);
+        indices.iter().position(|v| !v.is_empty()).unwrap()
+    }
+
+    /// `range_partition_id` (private) for direct driving.
+    pub fn range_partition_id(
+        row_key: &[datafusion_common::ScalarValue],
+        split_points: &[datafusion_common::SplitPoint],
+        sort_options: &[arrow_schema::SortOptions],
+    ) -> datafusion_common::Result<usize> {
+        super::range_partition_id(row_key, split_points, sort_options)
+    }
+}
+
 #[cfg(test)]
 mod tests {
     use std::collections::HashSet;
